@@ -188,6 +188,9 @@ func propC14(c *Ctx, r *Report) {
 	r.Clauses = append(r.Clauses, silentDefaultClause)
 	c.runSilentDefault(r, "eval.silentdefault", "wgsl/internal/lower", nil)
 	r.floor("eval.silentdefault", 6)
+	r.Clauses = append(r.Clauses, "no loop abandoned on an item error (E89): inside a loop of package ir, `if err != nil { ...; break }` is followed by a read of that error (in the branch or after the loop) - otherwise the first item that cannot be folded silently leaves every later global initialiser / override unresolved")
+	c.runErrBreakLoop(r, "error.breakloop", inPkgs("ir"))
+	r.floor("error.breakloop", 5)
 	r.floor("overrides.evaluators", 2)
 	for _, sp := range cloneSpecs[:2] {
 		c.runClone(r, "clone.fresh", sp)
